@@ -569,6 +569,21 @@ func scanSorts(fns []*ssa.Function) (ok []finding, bad []finding) {
 					continue
 				}
 				name := staticName(call.Common())
+				switch name {
+				case "slices.Sort", "sort.Strings", "sort.Ints":
+					// the natural order of an ordered element type: total
+					ok = append(ok, finding{"sort", fn, call.Pos(), "natural order"})
+					continue
+				case "slices.SortFunc", "slices.SortStableFunc":
+					// three-way comparators: a library total order over the whole element
+					// (bytes.Compare, strings.Compare, cmp.Compare), directly or wrapped
+					if threeWayTotal(call.Call.Args[1]) {
+						ok = append(ok, finding{"sort", fn, call.Pos(), "total three-way order"})
+					} else {
+						bad = append(bad, finding{"sort", fn, call.Pos(), "three-way comparator is not recognised as a total order over the whole element (bytes.Compare / strings.Compare / cmp.Compare on the elements)"})
+					}
+					continue
+				}
 				if name != "sort.Slice" && name != "sort.SliceStable" {
 					continue
 				}
@@ -1054,10 +1069,53 @@ func propC18(c *Ctx) {
 		} else {
 			_, cb := scanSorts(ctl)
 			oc.Sites = len(cb)
-			if len(cb) == 0 {
-				oc.Fail("-", "control comparator not flagged", nil)
+			if len(cb) < 2 {
+				oc.Fail("-", fmt.Sprintf("%d of the 2 control comparators (less-form and three-way partial orders) flagged", len(cb)), nil)
 			}
 		}
 	})
 	c.Extra["functions_scanned"] = len(fns)
+}
+
+// threeWayTotal: v is bytes.Compare / strings.Compare / cmp.Compare itself, or a one-block
+// function (a, b) that returns one of them applied to exactly (a, b).
+func threeWayTotal(v ssa.Value) bool {
+	lib := func(f *ssa.Function) bool {
+		switch funcName(f) {
+		case "bytes.Compare", "strings.Compare", "cmp.Compare":
+			return true
+		}
+		return false
+	}
+	var f *ssa.Function
+	switch x := v.(type) {
+	case *ssa.Function:
+		f = x
+	case *ssa.MakeClosure:
+		f, _ = x.Fn.(*ssa.Function)
+	case *ssa.ChangeType:
+		return threeWayTotal(x.X)
+	}
+	if f == nil {
+		return false
+	}
+	if lib(f) {
+		return true
+	}
+	if len(f.Blocks) != 1 || len(f.Params) != 2 {
+		return false
+	}
+	for _, in := range f.Blocks[0].Instrs {
+		r, ok := in.(*ssa.Return)
+		if !ok || len(r.Results) != 1 {
+			continue
+		}
+		call, ok := r.Results[0].(*ssa.Call)
+		if !ok {
+			return false
+		}
+		cal := call.Common().StaticCallee()
+		return cal != nil && lib(cal) && len(call.Common().Args) == 2 && call.Common().Args[0] == ssa.Value(f.Params[0]) && call.Common().Args[1] == ssa.Value(f.Params[1])
+	}
+	return false
 }
